@@ -9,6 +9,7 @@ func setHook(h func(site int32))  {}
 func setPerm(p func(n int) []int) {}
 func siteName(i int32) string     { return "?" }
 func nSites() int                 { return 0 }
+func onLibraryGoroutine() bool    { return false }
 func mapRangesRun() uint64        { return 0 }
 
 type globalVar struct {
@@ -17,3 +18,5 @@ type globalVar struct {
 }
 
 func globals() []globalVar { return nil }
+
+func LibraryGoroutinePanics() int { return 0 }
